@@ -11,6 +11,21 @@ CLAIMED = {
    text="TLC checks exhaustively (block sizes 1..4 quick / 1..6 thorough) that the block allocator Pool.tla refines the abstract promise PoolAbs.tla (fresh, non-nil, non-interfering objects); every behaviour of the model is replayed on both real pools and the client-visible memory compared; histories of up to 3 blocks+2 requests for sizes up to 1024 are recorded from the real pools (object identity from addresses) and accepted/rejected by TLC against PoolAbs. Right level: the allocator is a two-variable state machine whose only risk is the roll-over transition; the model enumerates it completely and the conformance step ties both implementations to it.",
    note="Trusted: TLC/SANY, Go toolchain, the pool driver in harness/cmd/worker/pool.go (derives object identity from addresses while all objects are kept alive). Bounded in block size and request count; sizes between those tried are covered only by the model's size-independence, not proven.",
    design="5 (C18), 3.1"),
+ "C12": dict(
+   technique="TLA+ model checking of the walk machine Walk.tla (mode traverse, invariant TraverseOK) over NodeSchema.tla + replay of every enumerated node instance on the real Traverser + pre-order comparison on parsed trees",
+   text="TLC enumerates, for all 155 node kinds, every combination of filled child slots and list lengths 0..2 (thorough: 0..2 with all subsets) and checks on the specification that the prescribed visit sequence has the parent first and every present child exactly once in schema (= source) order; each instance is built from the real pkg/ast types by reflection and traversed by the real Traverser with a recording visitor, and the recorded sequence must equal the prescribed one. Parsed trees: recorded sequence = reflection pre-order, no node reachable twice. Right level: the traverser is 155 hand-written methods over a finite schema, so the finite space is enumerated completely.",
+   note="Trusted: NodeSchema.tla (generated from pkg/ast by reflection, compared with the tree under test at run time; drift = exit 2), field order = source order, reflection builder/walker in harness/cmd/worker/{tree,synth}.go. Lists longer than 2 and nested synthetic children are not enumerated.",
+   design="5 (C12), 3.5"),
+ "C15": dict(
+   technique="TLA+ model checking of Walk.tla (mode print, invariant PrintOK) with Lexemes.tla + replay of every enumerated node instance on the real printer, output tokenised back into markers",
+   text="For all 155 kinds TLC enumerates instances (each token/child/value slot present or absent around the all-present and all-absent baselines, list lengths 0..2, separator arrangements none/between/trailing) and prescribes the marker sequence the printer owes: free-floating then token, children, separators interleaved, and for an absent token nothing or one canonical lexeme from Lexemes.tla (written from PHP syntax). The real printer's output for each instance is split into markers and gaps; markers must match exactly, gaps must decompose into the allowed lexemes. Right level: per-kind slot lists are finite case analysis; enumeration covers every slot of every kind.",
+   note="Trusted: NodeSchema.tla, Lexemes.tla (hand-written canonical lexemes), marker design (markers never trigger the printer's automatic space). quick: <=1 deviating slot per baseline; thorough: <=3. The subtree-locality clause is exercised on parsed trees by C02/C17 round trips, not separately here.",
+   design="5 (C15), 3.5"),
+ "C16": dict(
+   technique="TLA+ model checking of Walk.tla (mode dump, invariant DumpOK) + replay of every enumerated instance x 4 option combinations on the real dumper, dump parsed with go/parser; reflection comparison on parsed trees",
+   text="TLC enumerates all kinds x slot contents x {WithTokens, WithPositions} subsets and prescribes the labelled entries owed (each non-empty slot once under its own field name, Val for byte values, tokens/positions only when requested, nothing else). The real dump is parsed as Go syntax and compared entry by entry (missing, extra, duplicate, mislabelled, wrong content). For parsed programs the parsed dump is compared with a reflection walk of the tree under all four option combinations, including token ids, values, positions and free-floating lists.",
+   note="Trusted: go/parser as judge of Go syntax (the dump is wrapped as a list element because the dumper ends every literal with a comma), NodeSchema.tla, reflection comparer in synth.go. Empty lists may be shown or omitted (the property speaks of non-empty fields).",
+   design="5 (C16), 3.5"),
 }
 
 REASONS_PENDING = "check not built yet in this round; see DESIGN.md section 9 for the construction order"
